@@ -4,7 +4,7 @@ from evalutil import *
 
 ID = "C11"
 LEVEL = "proof"
-MODULES = ["H3Proofs.Props.C11"]
+MODULES = ["H3Proofs.Props.C11", "H3Proofs.Props.C11Res0"]
 THEOREMS = "auto"
 ASSUMPTIONS = ["model of vertexRotations / vertexNumForDirection / directionForVertexNum / cellToVertex(es) / "
                "isValidVertex with regenerated tables, tied by exact correspondence",
@@ -30,12 +30,19 @@ def _cells(rng, tier):
     return list(dict.fromkeys(cells))
 
 
+def _far_vnums(rng):
+    """vertex numbers far outside the range, in particular those that are in range modulo a power of two"""
+    k = rng.choice([8, 16, 24, 31])
+    return [(1 << k) + rng.randrange(0, 7), -(1 << k) + rng.randrange(0, 7), 256 + rng.randrange(0, 7),
+            -256 + rng.randrange(0, 7), rng.choice(gen.EXTREME_INTS), rng.randrange(-2 ** 31, 2 ** 31)]
+
+
 def streams(rng, tier):
     ops = []
     for h in _cells(rng, tier):
         x = gen.hx(h)
         ops += [f"c2vs {x}", f"vrot {x}"]
-        for v in range(-1, 8):
+        for v in list(range(-1, 8)) + _far_vnums(rng):
             ops += [f"c2v {x} {v}", f"dirforvnum {x} {v}"]
         for d in range(0, 8):
             ops.append(f"vnumfordir {x} {d}")
@@ -74,7 +81,7 @@ def evaluate(ctx, rng, tier, focus, budget, broken):
         for i, v in enumerate(vs):
             if v:
                 owners.setdefault(v, []).append(h)
-        for i in range(-1, 8):
+        for i in list(range(-1, 8)) + _far_vnums(rng):
             ops2.append(f"c2v {gen.hx(h)} {i}"); meta2.append((h, i))
     out2 = ctx.c(ops2, tag="eval2")
     for o, (h, i), a in zip(ops2, meta2, out2):
